@@ -267,6 +267,9 @@ T ebpps_sample<T,A>::get_partial_item() const {
 
 template<typename T, typename A>
 uint32_t ebpps_sample<T,A>::random_idx(uint32_t max) {
+#ifdef DATASKETCHES_VERIF
+  if (random_utils::verif_src()) return static_cast<uint32_t>(random_utils::verif_src()->index(max));
+#endif
   static std::uniform_int_distribution<uint32_t> dist;
   return dist(random_utils::rand, std::uniform_int_distribution<uint32_t>::param_type(0, max - 1));
 }
